@@ -63,6 +63,15 @@ def operand_of(st, v, hyps):
         return Operand('imm', v.t, v)
     if isinstance(v, int):
         return Operand('imm', z3.IntVal(v), v)
+    if isinstance(v, I.SObj) and v.cls.name in ('Lo', 'Hi') and isinstance(v.fields.get('expr'), I.SObj) \
+            and v.fields['expr'].cls.name == 'SymExpr' and st.item.fields.get('is_auipc_jump') is not True:
+        # %hi / %lo of an arbitrary inner expression: the split (contracts/relocate.py) of the inner decision-time value
+        x = decision_value(st, v.fields['expr'])
+        if v.cls.name == 'Hi':
+            u = ((x + 2048) / 4096) % (2 ** 20)
+            return Operand('imm', z3.If(u >= 2 ** 19, u - 2 ** 20, u), v)
+        u = x % 4096
+        return Operand('imm', z3.If(u >= 2048, u - 4096, u), v)
     if isinstance(v, I.SObj) and v.cls.name in ('Lo', 'Hi', 'Offset', 'Position'):
         # a real label-dependent expression (the jalr half of a far call / tail): its final value is not the decision-time one
         return Operand('imm', z3.Int('final_value_of_%s_%d' % (v.cls.name, id(v))), v)
